@@ -21,10 +21,11 @@
 (* harness/props/c15.py replay a sample of the emitted runs and compare    *)
 (* the recorded stream with Events (conformance of this generator).        *)
 (* The automata of Consumers.tla consume the stream; INVARIANTs:           *)
-(*   ClausesHold    every clause of (P) holds, except the named defect     *)
-(*                  families (KnownFamilies), so that TLC goes on          *)
-(*   KFNarrow       each family fires only on its narrow input condition   *)
-(*   RepairedHolds  with the drafted repairs nothing fires at all          *)
+(*   ClausesHold    every clause of (P) holds, except the one named family *)
+(*                  of the code as it is (KnownFamilies: the dry-run known *)
+(*                  finding, DESIGN section 8 #4), so that TLC goes on     *)
+(*   KFNarrow       the family fires only on its narrow input condition    *)
+(*   RepairedHolds  with the drafted repair of #4 nothing fires at all     *)
 (*   Emit           a deterministic part of the runs, with the predicted   *)
 (*                  stream and reports                                      *)
 (* start -> one state per shape (spreads the work over the workers) ->     *)
@@ -155,21 +156,19 @@ Build(run, gx) ==
 
 \* ---------------------------------------------------------------- (S) composed with (P)
 Crashes(o) ==
-   LET one(nm, c) == IF c = "" THEN {} ELSE {<<Fam("C15.no_crash", IF c = "TypeError" /\ nm \in {"json", "pretty"} THEN KF_ARG ELSE "none"), nm \o ":" \o c>>} IN
+   LET one(nm, c) == IF c = "" THEN {} ELSE {<<"C15.no_crash", nm \o ":" \o c>>} IN
    one("json", o.json.crash) \cup one("plain", o.plain.crash) \cup one("progress23", o.prog.crash) \cup one("progress", o.sprog.crash)
-   \cup one("pretty", o.pretty)
-Outputs(b, fx) == [json |-> JsonRun(b.ev, b.X, fx), plain |-> PlainRun(b.ev, b.X), prog |-> ProgRun(b.ev),
-                   sprog |-> SProgRun(b.ev, b.X), pretty |-> PrettyCrash(b.ev, fx)]
+Outputs(b) == [json |-> JsonRun(b.ev, b.X), plain |-> PlainRun(b.ev, b.X), prog |-> ProgRun(b.ev), sprog |-> SProgRun(b.ev, b.X)]
 \* a crashed formatter ends the run: the other clauses are not evaluated then (as on the rows of real runs)
-ClausesOf(b, fx) ==
-   LET o == Outputs(b, fx)
+ClausesOf(b) ==
+   LET o == Outputs(b)
        a == Analyse(b.ev)
        cr == Crashes(o)
    IN IF cr # {} THEN cr
       ELSE Grammar(b.ev, b.X, a)
            \cup (IF ToksValid(o.json.toks) THEN {} ELSE {<<"C15.json_valid", "text">>})
            \cup JsonMirror(o.json.out, b.X, a)
-           \cup ReadBackClause(ReadBack(o.json.out, fx), o.json.out)
+           \cup ReadBackClause(ReadBack(o.json.out), o.json.out)
            \cup PlainOnce(o.plain.lines, b.X, a)
            \cup ProgressOnce(o.prog.p2, o.prog.p3, TRUE, TRUE, b.X, a)
            \cup Agree(o.json.out, TRUE, o.plain.lines, TRUE, o.prog.p3, TRUE, b.X, a)
@@ -182,37 +181,21 @@ NoRun == [dry |-> FALSE, ss |-> FALSE, feats |-> <<>>]
 Init == ph = "start" /\ sh = 0 /\ run = NoRun /\ d = [v |-> {}, vr |-> {}]
 Next == \/ ph = "start" /\ ph' = "shape" /\ sh' \in {x \in Shapes : ShapeOK(x)} /\ UNCHANGED <<run, d>>
         \/ ph = "shape" /\ ph' = "case" /\ sh' = sh /\ run' \in RunsOf(sh)
-           /\ d' = [v |-> ClausesOf(Build(run', CodeGen), CodeFix), vr |-> ClausesOf(Build(run', FixedGen), AllFix)]
+           /\ d' = [v |-> ClausesOf(Build(run', CodeGen)), vr |-> ClausesOf(Build(run', FixedGen))]
 Spec == Init /\ [][Next]_vars
 
 Names(vs) == {v[1] : v \in vs}
 ClausesHold == ph = "case" => Names(d.v) \subseteq KnownFamilies
 RepairedHolds == ph = "case" => d.vr = {}
 
-\* ---------------------------------------------------------------- the families are as narrow as the defects (conditions on the INPUT)
+\* ---------------------------------------------------------------- the family is as narrow as the defect (condition on the INPUT)
 AllScens(f) == [j \in DOMAIN f.pre |-> [sel |-> f.sel /\ f.pre[j].sel, ks |-> f.pre[j].ks]]
                \o [j \in DOMAIN f.rule.scs |-> [sel |-> f.sel /\ f.rule.sel /\ f.rule.scs[j].sel, ks |-> f.rule.scs[j].ks]]
-ShownPre(f) == \E j \in DOMAIN f.pre : (f.sel /\ f.pre[j].sel) \/ run.ss
-Fired(fam) == \E c \in Names(d.v) : c \in {"C15.grammar/" \o fam, "C15.json_mirror/" \o fam, "C15.plain_once/" \o fam, "C15.agree/" \o fam,
-                                           "C15.no_crash/" \o fam, "C15.json_readback/" \o fam}
-KFNarrow == ph = "case" =>
-   \* #4: a dry run with a selected scenario in which an undefined step is followed by a defined one
-   /\ (Fired(KF_DRY) => run.dry /\ \E k \in DOMAIN run.feats : \E j \in DOMAIN AllScens(run.feats[k]) :
-           LET sc == AllScens(run.feats[k])[j] IN sc.sel /\ \E p, q \in DOMAIN sc.ks : p < q /\ sc.ks[p] = "undef" /\ sc.ks[q] # "undef")
-   \* #12: a shown rule that announces a background (own or inherited) after a shown scenario of the feature
-   /\ (Fired(KF_BG) => \E k \in DOMAIN run.feats : LET f == run.feats[k] IN
-           f.rule.kind = "rule" /\ (f.rule.rbg > 0 \/ f.fbg > 0) /\ ShownPre(f) /\ ((f.sel /\ f.rule.sel) \/ run.ss))
-   \* #11: a step whose converter raises is reached
-   /\ (Fired(KF_ARG) => \E k \in DOMAIN run.feats : \E j \in DOMAIN AllScens(run.feats[k]) :
-           LET sc == AllScens(run.feats[k])[j] IN sc.sel /\ \E p \in DOMAIN sc.ks : sc.ks[p] = "bad")
-   \* #13: a background is announced in a feature
-   /\ (Fired(KF_RB) => \E k \in DOMAIN run.feats : run.feats[k].fbg > 0 \/ (run.feats[k].rule.kind = "rule" /\ run.feats[k].rule.rbg > 0))
-\* ... and the defects are real: whenever the input condition of #12 holds in a run that comes to its end, the clause fires
-KFBgReal == (ph = "case" /\ ~CodeFix.bgfinish) =>
-   (((\A c \in Names(d.v) : c # "C15.no_crash/" \o KF_ARG) /\
-    \E k \in DOMAIN run.feats : LET f == run.feats[k] IN
-        f.rule.kind = "rule" /\ (f.rule.rbg > 0 \/ f.fbg > 0) /\ ShownPre(f) /\ ((f.sel /\ f.rule.sel) \/ run.ss))
-   => "C15.json_mirror/" \o KF_BG \in Names(d.v))
+\* #4: a dry run with a selected scenario in which an undefined step is followed by a defined one -- and the finding is
+\* real: whenever that input condition holds, the grammar clause fires
+DryInput == run.dry /\ \E k \in DOMAIN run.feats : \E j \in DOMAIN AllScens(run.feats[k]) :
+               LET sc == AllScens(run.feats[k])[j] IN sc.sel /\ \E p, q \in DOMAIN sc.ks : p < q /\ sc.ks[p] = "undef" /\ sc.ks[q] # "undef"
+KFNarrow == (ph = "case" /\ ~CodeGen.dryundef) => (Names(d.v) # {} <=> DryInput) /\ (DryInput => "C15.grammar/" \o KF_DRY \in Names(d.v))
 
 \* ---------------------------------------------------------------- emission
 KindIx(k) == CASE k = "pass" -> 1 [] k = "fail" -> 2 [] k = "undef" -> 3 [] k = "bad" -> 4 [] OTHER -> 5
@@ -220,10 +203,11 @@ RECURSIVE Code(_,_)
 Code(scs, j) == IF j > Len(scs) THEN 0
                 ELSE (IF scs[j].sel THEN 7 ELSE 3) * j + Fold(LAMBDA acc, kd : acc * 5 + KindIx(kd), 0, scs[j].ks, 1) * (2 * j + 1) + Code(scs, j + 1)
 RunCode == Fold(LAMBDA acc, f : acc * 31 + Code(AllScens(f), 1) + f.fbg + 2 * f.rule.rbg, 0, run.feats, 1)
-EmitThis == RunCode % EmitMod = 0
+\* runs with an unselected feature or rule are few and matter for the hook-exclusion rows of props/c15.py: every 3rd of them
+EmitThis == RunCode % EmitMod = 0 \/ ((~sh.fsel \/ (sh.rule.kind = "rule" /\ ~sh.rule.sel)) /\ RunCode % 3 = 0)
 Emit == (ph = "case" /\ EmitThis) =>
    LET b == Build(run, CodeGen)
-       o == Outputs(b, CodeFix)
+       o == Outputs(b)
        dead == Crashes(o) # {}
    IN PrintT(<<"CASE", ToJson([run |-> run, kinds |-> b.kinds, events |-> b.ev, st |-> b.X.st, sst |-> b.X.sst,
                                clauses |-> [c \in KnownFamilies |-> c \in Names(d.v)], dead |-> dead,
